@@ -223,27 +223,33 @@ def purity_replay(chk, scalar, name, meth, sig, why):
         st0, sol = chk.world().find(scalar, name)
         pnames = sorted(sol['params'])
         vnames = sorted(sol['vecs'])
-        lines = ['masa_init<Scalar>("a","%s");' % name]
-        for vn in vnames:
-            lines.append('{ std::vector<Scalar> d(3); d[0]=(Scalar)0.25; d[1]=(Scalar)1.5; d[2]=(Scalar)2.75; masa_set_vec<Scalar>("%s",d); }' % vn)
-        lines.append('std::vector<Scalar> before, after;')
-        for pn in pnames:
-            lines.append('before.push_back(masa_get_param<Scalar>("%s"));' % pn)
-        lines.append('Scalar r1 = %s<Scalar>(%s);' % (api, a1))
-        for pn in pnames:
-            lines.append('after.push_back(masa_get_param<Scalar>("%s"));' % pn)
-        lines.append('bool same=true; for(size_t i=0;i<before.size();i++) same = same && (before[i]==after[i]); printf("\\nR params_unchanged %d\\n",(int)same);')
-        lines.append('%s<Scalar>(%s); masa_init<Scalar>("b","%s"); masa_select_mms<Scalar>("a");' % (api, a2, name))
-        lines.append('Scalar r2 = %s<Scalar>(%s); printf("R same_value %%d\\n", (int)(r1==r2 || (r1!=r1 && r2!=r2)));' % (api, a1))
-        # fresh handle, same parameters, no history
-        lines.append('masa_init<Scalar>("c","%s");' % name)
-        for vn in vnames:
-            lines.append('{ std::vector<Scalar> d(3); d[0]=(Scalar)0.25; d[1]=(Scalar)1.5; d[2]=(Scalar)2.75; masa_set_vec<Scalar>("%s",d); }' % vn)
-        lines.append('Scalar r3 = %s<Scalar>(%s); printf("R same_as_fresh %%d\\n", (int)(r1==r3 || (r1!=r1 && r3!=r3)));' % (api, a1))
-        src = '#include <masa.h>\n#include <cstdio>\n#include <vector>\n#include <string>\nusing namespace MASA;\ntypedef %s Scalar;\nint main(){\n%s\n return 0;}\n' % (cxx, '\n'.join(lines))
-        rc, out, err = chk.lib().run(src)
-        expect = ['R params_unchanged 1', 'R same_value 1', 'R same_as_fresh 1']
-        missing = [e for e in expect if e not in out]
+        for perturb in (False, True):
+            # second round: every registered parameter moved off its default first (defaults hide writes of a value that happens to be the default,
+            # e.g. a derived parameter recomputed from another one)
+            setp = ''.join('masa_set_param<Scalar>("%s", masa_get_param<Scalar>("%s")*(Scalar)1.0625+(Scalar)0.03125);' % (pn, pn) for pn in pnames) if perturb else ''
+            lines = ['masa_init<Scalar>("a","%s"); %s' % (name, setp)]
+            for vn in vnames:
+                lines.append('{ std::vector<Scalar> d(3); d[0]=(Scalar)0.25; d[1]=(Scalar)1.5; d[2]=(Scalar)2.75; masa_set_vec<Scalar>("%s",d); }' % vn)
+            lines.append('std::vector<Scalar> before, after;')
+            for pn in pnames:
+                lines.append('before.push_back(masa_get_param<Scalar>("%s"));' % pn)
+            lines.append('Scalar r1 = %s<Scalar>(%s);' % (api, a1))
+            for pn in pnames:
+                lines.append('after.push_back(masa_get_param<Scalar>("%s"));' % pn)
+            lines.append('bool same=true; for(size_t i=0;i<before.size();i++) same = same && (before[i]==after[i]); printf("\\nR params_unchanged %d\\n",(int)same);')
+            lines.append('%s<Scalar>(%s); masa_init<Scalar>("b","%s"); masa_select_mms<Scalar>("a");' % (api, a2, name))
+            lines.append('Scalar r2 = %s<Scalar>(%s); printf("R same_value %%d\\n", (int)(r1==r2 || (r1!=r1 && r2!=r2)));' % (api, a1))
+            # fresh handle, same parameters, no history
+            lines.append('masa_init<Scalar>("c","%s"); %s' % (name, setp))
+            for vn in vnames:
+                lines.append('{ std::vector<Scalar> d(3); d[0]=(Scalar)0.25; d[1]=(Scalar)1.5; d[2]=(Scalar)2.75; masa_set_vec<Scalar>("%s",d); }' % vn)
+            lines.append('Scalar r3 = %s<Scalar>(%s); printf("R same_as_fresh %%d\\n", (int)(r1==r3 || (r1!=r1 && r3!=r3)));' % (api, a1))
+            src = '#include <masa.h>\n#include <cstdio>\n#include <vector>\n#include <string>\nusing namespace MASA;\ntypedef %s Scalar;\nint main(){\n%s\n return 0;}\n' % (cxx, '\n'.join(lines))
+            rc, out, err = chk.lib().run(src)
+            expect = ['R params_unchanged 1', 'R same_value 1', 'R same_as_fresh 1']
+            missing = [e for e in expect if e not in out]
+            if missing:
+                break
         if not missing and pnames:
             # parameter-change variant: a handle that has ALREADY evaluated, then gets one parameter changed, must agree bit for bit
             # with a fresh handle on which the same parameter was changed before any evaluation (stale caches keyed on a subset of the parameters)
